@@ -921,6 +921,9 @@ func (fr *Frame) callWritesOnlyRowsOrFresh(li *loopInfo, ci ssa.CallInstruction,
 			case *ssa.Alloc, *ssa.MakeSlice:
 				return true
 			}
+			if fr.selfAppended(li, root) != nil {
+				return true // writes go to the array the variable had on entry (a listed row) or to arrays allocated in the loop
+			}
 		}
 		// pointer arguments rooted at loop-local allocations
 		var all []ssa.Value
@@ -945,6 +948,58 @@ func (fr *Frame) callWritesOnlyRowsOrFresh(li *loopInfo, ci ssa.CallInstruction,
 		return true
 	}
 	return true
+}
+
+// selfAppended: v is a slice variable of the loop (a phi of its header) that the loop only re-assigns by appending
+// to itself. Its backing array is then the one it had on loop entry or one allocated inside the loop. Returns the
+// values flowing in from outside the loop (whose arrays are the only pre-existing rows such appends can write).
+func (fr *Frame) selfAppended(li *loopInfo, v ssa.Value) []ssa.Value {
+	phi, ok := v.(*ssa.Phi)
+	if !ok || phi.Block() != li.header {
+		return nil
+	}
+	if _, isSl := phi.Type().Underlying().(*types.Slice); !isSl {
+		return nil
+	}
+	var entries []ssa.Value
+	var fromInside func(x ssa.Value, depth int) bool
+	fromInside = func(x ssa.Value, depth int) bool {
+		if depth > 6 {
+			return false
+		}
+		if x == phi {
+			return true
+		}
+		switch y := x.(type) {
+		case *ssa.Call:
+			if b, ok := y.Call.Value.(*ssa.Builtin); ok && b.Name() == "append" {
+				return fromInside(fr.rootOf(y.Call.Args[0]), depth+1)
+			}
+		case *ssa.Phi:
+			if li.body[y.Block()] {
+				for _, e := range y.Edges {
+					if !fromInside(e, depth+1) {
+						return false
+					}
+				}
+				return true
+			}
+		}
+		return false
+	}
+	for k, p := range li.header.Preds {
+		if li.body[p] {
+			if !fromInside(phi.Edges[k], 0) {
+				return nil
+			}
+		} else {
+			entries = append(entries, phi.Edges[k])
+		}
+	}
+	if len(entries) == 0 {
+		return nil
+	}
+	return entries
 }
 
 // resultAlias: the contract states `result == p` for a parameter p (first such conjunct)
